@@ -158,14 +158,15 @@ def case(part, item):
     kinds, dname, (method, prediv), idt, fdt, modes, seed = item[:7]
     kl = item[7] if len(item) > 7 else 1e-3
     hook, acc = item[8] if len(item) > 8 else (True, 1)
+    gscale = item[9] if len(item) > 9 else None
     import kfac
 
     dtype = R.DT[dname]
     name = (f"{'+'.join(kinds)}/{dname}/{method}/{prediv}/idt={idt}/fdt="
             f"{fdt}/modes={modes}/kl={kl}")
-    name += f'/hook={hook}/acc={acc}'
+    name += f'/hook={hook}/acc={acc}/gradscale={gscale}'
     det = {'item': [list(kinds), dname, [method, prediv], idt, fdt, modes,
-                    seed, kl, [hook, acc]]}
+                    seed, kl, [hook, acc], gscale]}
 
     def bad(kind, text):
         part.violation(f'{kind}:{dname}', f'{name}: {text}', det)
@@ -180,6 +181,8 @@ def case(part, item):
                   update_factors_in_hook=hook, accumulation_steps=acc)
         if fdt:
             kw['factor_dtype'] = R.DT[fdt]
+        if gscale is not None:
+            kw['grad_scaler'] = lambda: gscale
         pre = kfac.preconditioner.KFACPreconditioner(model, **kw)
         # registered parameters decided independently of the preconditioner
         # (from the user's skip patterns), so that a module registered
@@ -361,8 +364,10 @@ def main(run: core.Run):
             for j, h in enumerate(hs):
                 for kl in (kls if thorough else [kls[(i + j) % 3]]):
                     for ha in (has if thorough else [has[(i + 2 * j) % 4]]):
+                        # AMP: a gradient scaler is supplied (scale 8)
+                        sc = 8.0 if (i + j + len(items)) % 3 == 0 else None
                         items.append((kinds, dname, (m, p), idt, fdt, h,
-                                      run.seed, kl, ha))
+                                      run.seed, kl, ha, sc))
     core.pmap(run, case, items)
     ov = [(m, mult, rho, meth, pre) for m in ('lin1', 'mlp2')
           for mult in (300.0, 1000.0) for rho in (0.9, 0.97)
@@ -381,12 +386,14 @@ def main(run: core.Run):
         'branches x parameter dtype x method x inverse/factor dtype x '
         'clipping {active, inactive, None} x hook/no-hook x accumulation {1,2} '
         '(with eval passes inserted between micro-batches and between '
-        'backward and step) x '
+        'backward and step) x gradient scaler {none, 8} x '
         'train/eval mode histories of length 3; bit-exact snapshots of '
         'state_dict and all .grad tensors around step(), digest of all '
         'K-FAC state around eval passes, outputs/gradients vs a deep-copied '
         'twin without K-FAC; non-trivial = trained programs mixing '
-        'registered and unregistered parameters')
+        'registered and unregistered parameters; plus a float16 family whose '
+        'clip inner product overflows to +inf and -inf (finite inputs must '
+        'give finite gradients)')
     run.sample({'leaves': list(progs[len(progs) // 2]), 'modes': 'tet'})
     run.sample({'leaves': list(progs[-1]), 'modes': 'ett'})
     if not thorough:
